@@ -105,9 +105,9 @@ def scenario(name):
                         b[i] ^= 0x41
                     open(os.path.join(d, inp, *rel.split('/')), 'wb').write(bytes(b))
                     want_out[rel] = files[rel] if tool == 'whole' else files[rel][:200] + bytes(b)[200:]
-            if variant in ('efilepath', 'sibling'):
+            if variant in ('efilepath', 'sibling', 'pathskip'):
                 # damage the PATH FIELD of one entry within the capacity of its intra-ecc (one symbol)
-                victim, repl = (b'sub/b.txt', b'sub/b.tyt') if variant == 'efilepath' else (b'frames/f1.raw', b'frames/f3.raw')
+                victim, repl = (b'sub/b.txt', b'sub/b.tyt') if variant in ('efilepath', 'pathskip') else (b'frames/f1.raw', b'frames/f3.raw')
                 data = open(d + '/' + db, 'rb').read()
                 i = data.find(victim)
                 if i < 0 or data.find(victim, i + 1) >= 0:
@@ -135,6 +135,20 @@ def scenario(name):
                     open(d + '/lists/err.csv', 'w').write('a.bin|listed by hand\n')
                     want_out = {'a.bin': want_out['a.bin']}
                 extra = ['-e', 'lists/err.csv']
+            if variant == 'hashdmg':
+                # the STORED HASH of the first block of a.bin damaged too (one character), parity intact, --no_fast_check: the decoder's
+                # answer is a codeword of the stored parity, the block is within capacity — repaired all the same
+                import hashlib
+                hx_ = hashlib.md5(files['a.bin'][:25]).hexdigest().encode()
+                data = open(d + '/' + db, 'rb').read()
+                i = data.find(hx_)
+                if i < 0:
+                    bad.append({'step': 'harness: locate the stored hash of block 0'})
+                else:
+                    open(d + '/' + db, 'wb').write(data[:i] + (b'0' if data[i:i + 1] != b'0' else b'1') + data[i + 1:])
+                extra = ['--no_fast_check']
+            if variant == 'pathskip':
+                extra = ['--skip_missing']      # every file is there: the option must change nothing, whatever the state of a path field
             rc, out = pff([cmd, '-i', inp, '-d', db, '-c', '-o', outd, '-l', 'corr.log'] + extra + ECC[tool], d)
             if rc != 0:
                 bad.append({'step': 'correct with -l' + (' and -e' if extra else ''), 'exit': rc, 'expected': 0, 'tail': out[-300:]})
@@ -173,7 +187,7 @@ def scenario(name):
                 bad.append({'step': 'dup output', 'differing': [k for k in FILES if got.get(k) != FILES[k]]})
             if rc != 0:
                 bad.append({'step': 'dup with database, report and -l: every path restored and hash-correct', 'exit': rc, 'expected': 0, 'tail': out[-300:]})
-        elif name == 'C15':
+        elif name.split('-')[0] == 'C15':
             # `pff recc` (alias of recover): every marker of the header ecc file overwritten, index intact -> identical to the pristine file
             rc, out = pff(['hecc', '-i', 'in', '-d', 'ecc.db', '-g', '-f', '-l', 'gen.log'] + ECC['header'], d)
             pristine = open(d + '/ecc.db', 'rb').read()
@@ -187,9 +201,21 @@ def scenario(name):
                     n_mk += 1
                     pos = dam.find(pat, pos + len(pat))
             open(d + '/dam.db', 'wb').write(bytes(dam))
+            if name == 'C15-badrecord':
+                # one index record (the fourth of many, 27 bytes each) damaged beyond the capacity of its own ecc: it is skipped, the
+                # records after it still apply — at most the one marker it described stays overwritten
+                idx = bytearray(open(d + '/ecc.db.idx', 'rb').read())
+                for i in range(3 * 27, 3 * 27 + 14):
+                    idx[i] ^= 0x5a
+                open(d + '/ecc.db.idx', 'wb').write(bytes(idx))
             rc, out = pff(['recc', '-i', 'dam.db', '--index', 'ecc.db.idx', '-o', 'rec.db', '-t', '0', '-f', '-l', 'rec.log'], d)
             got = open(d + '/rec.db', 'rb').read() if os.path.exists(d + '/rec.db') else None
-            if got != pristine:
+            if name == 'C15-badrecord':
+                nd = None if got is None else sum(1 for x, y in zip(got, pristine) if x != y) + abs(len(got) - len(pristine))
+                if nd is None or nd > 10:
+                    bad.append({'step': 'pff recc --index -t 0, one index record of %d destroyed' % (len(idx) // 27), 'exit': rc,
+                                'differing_bytes': nd, 'expected': 'at most one marker (10 bytes) left overwritten', 'tail': out[-200:]})
+            elif got != pristine:
                 bad.append({'step': 'pff recc --index -t 0 after overwriting %d markers' % n_mk, 'exit': rc, 'identical_to_pristine': False,
                             'differing_bytes': None if got is None else sum(1 for x, y in zip(got, pristine) if x != y) + abs(len(got) - len(pristine)), 'tail': out[-200:]})
         elif name == 'C19':
@@ -204,11 +230,17 @@ def scenario(name):
                     any(after.get(k) != v for k, v in before.items() if k != 'a.bin'):
                 bad.append({'step': 'filetamper on a single file, erasure mode, --header 100', 'exit': rc, 'length': [len(a0), len(a1)],
                             'changed_beyond_header': a1[100:] != a0[100:], 'tail': out[-200:]})
-        elif name == 'C16':
+        elif name.split('-')[0] == 'C16':
             rc, out = pff(['rfigc', '-i', 'in', '-d', 'db.csv', '-g', '-f', '-l', 'g.log'], d)
-            os.remove(d + '/in/sub/b.txt')
-            write_tree(d + '/in', {'new/n.txt': b'new file', 'top.bin': b'\x00\x01'})
-            rc, out = pff(['hash', '-i', 'in', '-d', 'db.csv', '-u', '-a', '-r', '-l', 'u.log'], d)
+            if name == 'C16-relsingle':
+                # a new top-level file appended through a single-file input given as a RELATIVE path from the parent of the tree: the
+                # launch directory must not leak into the recorded path — the database then equals a fresh generation at once
+                write_tree(d + '/in', {'top.bin': b'\x00\x01'})
+                rc, out = pff(['hash', '-i', 'in/top.bin', '-d', 'db.csv', '-u', '-a', '-l', 'u.log'], d)
+            else:
+                os.remove(d + '/in/sub/b.txt')
+                write_tree(d + '/in', {'new/n.txt': b'new file', 'top.bin': b'\x00\x01'})
+                rc, out = pff(['hash', '-i', 'in', '-d', 'db.csv', '-u', '-a', '-r', '-l', 'u.log'], d)
             rc2, out2 = pff(['hash', '-i', 'in', '-d', 'fresh.csv', '-g', '-f', '--silent'], d)
 
             def rows(pth):
